@@ -124,159 +124,170 @@ func (in *Interp) nondet(name string, w int, kind string) *Term {
 	return t
 }
 
-var rtSummaries = map[string]summaryFn{
-	"Byte": func(in *Interp, _ *ssa.Function, a []Value, _ *frame) Value {
-		return in.nondet(mustStr(a[0], "nondet name"), 8, "byte")
-	},
-	"Bool": func(in *Interp, _ *ssa.Function, a []Value, _ *frame) Value {
-		return in.nondet(mustStr(a[0], "nondet name"), 0, "bool")
-	},
-	"Int": func(in *Interp, _ *ssa.Function, a []Value, _ *frame) Value {
-		return in.nondet(mustStr(a[0], "nondet name"), 64, "int")
-	},
-	"Int64": func(in *Interp, _ *ssa.Function, a []Value, _ *frame) Value {
-		return in.nondet(mustStr(a[0], "nondet name"), 64, "int")
-	},
-	"Uint64": func(in *Interp, _ *ssa.Function, a []Value, _ *frame) Value {
-		return in.nondet(mustStr(a[0], "nondet name"), 64, "uint")
-	},
-	"Intn": func(in *Interp, _ *ssa.Function, a []Value, _ *frame) Value {
-		t := in.nondet(mustStr(a[0], "nondet name"), 64, "int")
-		lo, hi := a[1].(*Term), a[2].(*Term)
-		in.e.assume(mk("and", 0, mk("bvsle", 0, lo, t), mk("bvsle", 0, t, hi)))
-		return t
-	},
-	"Bytes": func(in *Interp, _ *ssa.Function, a []Value, _ *frame) Value {
-		n := in.cint(a[1])
-		name := mustStr(a[0], "nondet name")
-		r := make(strV, n)
-		for i := range r {
-			r[i] = in.nondet(name, 8, "byte")
-		}
-		return r
-	},
-	"Assume": func(in *Interp, _ *ssa.Function, a []Value, _ *frame) Value {
-		in.e.assume(a[0].(*Term))
-		return nil
-	},
-	"Assert": func(in *Interp, _ *ssa.Function, a []Value, _ *frame) Value {
-		in.assertT(a[0].(*Term), mustStr(a[1], "assert label"))
-		return nil
-	},
-	"Reach": func(in *Interp, _ *ssa.Function, a []Value, _ *frame) Value {
-		in.reached[mustStr(a[0], "reach label")] = true
-		return nil
-	},
-	"Tag": func(in *Interp, _ *ssa.Function, a []Value, _ *frame) Value {
-		in.tags = append(in.tags, mustStr(a[0], "tag"))
-		return nil
-	},
-	"Observe": func(in *Interp, _ *ssa.Function, a []Value, _ *frame) Value {
-		in.observes = append(in.observes, observeRec{mustStr(a[0], "observe label"), a[1]})
-		return nil
-	},
-	"And": func(in *Interp, _ *ssa.Function, a []Value, _ *frame) Value {
-		return mk("and", 0, a[0].(*Term), a[1].(*Term))
-	},
-	"Or": func(in *Interp, _ *ssa.Function, a []Value, _ *frame) Value {
-		return mk("or", 0, a[0].(*Term), a[1].(*Term))
-	},
-	"Not": func(in *Interp, _ *ssa.Function, a []Value, _ *frame) Value {
-		return mkNot(a[0].(*Term))
-	},
-	"Implies": func(in *Interp, _ *ssa.Function, a []Value, _ *frame) Value {
-		return mk("or", 0, mkNot(a[0].(*Term)), a[1].(*Term))
-	},
-	"Iff": func(in *Interp, _ *ssa.Function, a []Value, _ *frame) Value {
-		return mkEq(a[0].(*Term), a[1].(*Term))
-	},
-	"IteInt": func(in *Interp, _ *ssa.Function, a []Value, _ *frame) Value {
-		return mkIte(a[0].(*Term), a[1].(*Term), a[2].(*Term))
-	},
-	"IteInt64": func(in *Interp, _ *ssa.Function, a []Value, _ *frame) Value {
-		return mkIte(a[0].(*Term), a[1].(*Term), a[2].(*Term))
-	},
-	"IteByte": func(in *Interp, _ *ssa.Function, a []Value, _ *frame) Value {
-		return mkIte(a[0].(*Term), a[1].(*Term), a[2].(*Term))
-	},
-	"IteBool": func(in *Interp, _ *ssa.Function, a []Value, _ *frame) Value {
-		return mkIte(a[0].(*Term), a[1].(*Term), a[2].(*Term))
-	},
-	"EqStr": func(in *Interp, _ *ssa.Function, a []Value, _ *frame) Value {
-		return strEq(a[0].(strV), a[1].(strV))
-	},
-	"EqInt": func(in *Interp, _ *ssa.Function, a []Value, _ *frame) Value {
-		return mkEq(a[0].(*Term), a[1].(*Term))
-	},
-	"LtInt": func(in *Interp, _ *ssa.Function, a []Value, _ *frame) Value {
-		return mk("bvslt", 0, a[0].(*Term), a[1].(*Term))
-	},
-	"LeInt": func(in *Interp, _ *ssa.Function, a []Value, _ *frame) Value {
-		return mk("bvsle", 0, a[0].(*Term), a[1].(*Term))
-	},
-	// SameValue compares two interface values structurally (term-level).
-	"SameValue": func(in *Interp, _ *ssa.Function, a []Value, _ *frame) Value {
-		return in.sameValue(a[0], a[1])
-	},
-	// Entails reports (concretely) whether the path condition implies cond.
-	"Entails": func(in *Interp, _ *ssa.Function, a []Value, _ *frame) Value {
-		c := a[0].(*Term)
-		if c.isConst {
-			return c
-		}
-		switch in.e.feasible(mkNot(c)) {
-		case "unsat":
-			return tTrue
-		case "unknown":
-			panic(pathAbort{"unknown", "solver unknown in Entails"})
-		}
-		return tFalse
-	},
-	// Mentions reports (concretely) whether any byte of the string depends on a
-	// nondet symbol whose name starts with prefix (syntactic taint on terms).
-	"Mentions": func(in *Interp, _ *ssa.Function, a []Value, _ *frame) Value {
-		s := a[0].(strV)
-		prefix := mustStr(a[1], "Mentions prefix")
-		seen := map[*Term]bool{}
-		for _, b := range s {
-			if b.mentions(prefix, seen) {
-				return tTrue
+var rtSummaries map[string]summaryFn
+
+func init() {
+	rtSummaries = map[string]summaryFn{
+		"Byte": func(in *Interp, _ *ssa.Function, a []Value, _ *frame) Value {
+			return in.nondet(mustStr(a[0], "nondet name"), 8, "byte")
+		},
+		"Bool": func(in *Interp, _ *ssa.Function, a []Value, _ *frame) Value {
+			return in.nondet(mustStr(a[0], "nondet name"), 0, "bool")
+		},
+		"Int": func(in *Interp, _ *ssa.Function, a []Value, _ *frame) Value {
+			return in.nondet(mustStr(a[0], "nondet name"), 64, "int")
+		},
+		"Int64": func(in *Interp, _ *ssa.Function, a []Value, _ *frame) Value {
+			return in.nondet(mustStr(a[0], "nondet name"), 64, "int")
+		},
+		"Uint64": func(in *Interp, _ *ssa.Function, a []Value, _ *frame) Value {
+			return in.nondet(mustStr(a[0], "nondet name"), 64, "uint")
+		},
+		"Intn": func(in *Interp, _ *ssa.Function, a []Value, _ *frame) Value {
+			t := in.nondet(mustStr(a[0], "nondet name"), 64, "int")
+			lo, hi := a[1].(*Term), a[2].(*Term)
+			in.e.assume(mk("and", 0, mk("bvsle", 0, lo, t), mk("bvsle", 0, t, hi)))
+			return t
+		},
+		"Bytes": func(in *Interp, _ *ssa.Function, a []Value, _ *frame) Value {
+			n := in.cint(a[1])
+			name := mustStr(a[0], "nondet name")
+			r := make(strV, n)
+			for i := range r {
+				r[i] = in.nondet(name, 8, "byte")
 			}
-		}
-		return tFalse
-	},
-	"IsSymbolic": func(in *Interp, _ *ssa.Function, a []Value, _ *frame) Value { return tTrue },
-	"Concretize": func(in *Interp, _ *ssa.Function, a []Value, _ *frame) Value {
-		t := a[0].(*Term)
-		lo, hi := in.cint(a[1]), in.cint(a[2])
-		v, ok := in.concretize(t, lo, hi+1)
-		if !ok {
-			panic(pathAbort{"assume", "Concretize out of range"})
-		}
-		return bv(64, uint64(v))
-	},
-	"ConcretizeByte": func(in *Interp, _ *ssa.Function, a []Value, _ *frame) Value {
-		t := a[0].(*Term)
-		cands := a[1].(strV)
-		for _, c := range cands {
-			if in.e.branch(mkEq(t, c)) {
+			return r
+		},
+		"Assume": func(in *Interp, _ *ssa.Function, a []Value, _ *frame) Value {
+			in.e.assume(a[0].(*Term))
+			return nil
+		},
+		"Assert": func(in *Interp, _ *ssa.Function, a []Value, _ *frame) Value {
+			in.assertT(a[0].(*Term), mustStr(a[1], "assert label"))
+			return nil
+		},
+		"Reach": func(in *Interp, _ *ssa.Function, a []Value, _ *frame) Value {
+			in.reached[mustStr(a[0], "reach label")] = true
+			return nil
+		},
+		"Tag": func(in *Interp, _ *ssa.Function, a []Value, _ *frame) Value {
+			in.tags = append(in.tags, mustStr(a[0], "tag"))
+			return nil
+		},
+		"Observe": func(in *Interp, _ *ssa.Function, a []Value, _ *frame) Value {
+			in.observes = append(in.observes, observeRec{mustStr(a[0], "observe label"), a[1]})
+			return nil
+		},
+		"And": func(in *Interp, _ *ssa.Function, a []Value, _ *frame) Value {
+			return mk("and", 0, a[0].(*Term), a[1].(*Term))
+		},
+		"Or": func(in *Interp, _ *ssa.Function, a []Value, _ *frame) Value {
+			return mk("or", 0, a[0].(*Term), a[1].(*Term))
+		},
+		"Not": func(in *Interp, _ *ssa.Function, a []Value, _ *frame) Value {
+			return mkNot(a[0].(*Term))
+		},
+		"Implies": func(in *Interp, _ *ssa.Function, a []Value, _ *frame) Value {
+			return mk("or", 0, mkNot(a[0].(*Term)), a[1].(*Term))
+		},
+		"Iff": func(in *Interp, _ *ssa.Function, a []Value, _ *frame) Value {
+			return mkEq(a[0].(*Term), a[1].(*Term))
+		},
+		"IteInt": func(in *Interp, _ *ssa.Function, a []Value, _ *frame) Value {
+			return mkIte(a[0].(*Term), a[1].(*Term), a[2].(*Term))
+		},
+		"IteInt64": func(in *Interp, _ *ssa.Function, a []Value, _ *frame) Value {
+			return mkIte(a[0].(*Term), a[1].(*Term), a[2].(*Term))
+		},
+		"IteByte": func(in *Interp, _ *ssa.Function, a []Value, _ *frame) Value {
+			return mkIte(a[0].(*Term), a[1].(*Term), a[2].(*Term))
+		},
+		"IteBool": func(in *Interp, _ *ssa.Function, a []Value, _ *frame) Value {
+			return mkIte(a[0].(*Term), a[1].(*Term), a[2].(*Term))
+		},
+		"EqStr": func(in *Interp, _ *ssa.Function, a []Value, _ *frame) Value {
+			return strEq(a[0].(strV), a[1].(strV))
+		},
+		"EqInt": func(in *Interp, _ *ssa.Function, a []Value, _ *frame) Value {
+			return mkEq(a[0].(*Term), a[1].(*Term))
+		},
+		"LtInt": func(in *Interp, _ *ssa.Function, a []Value, _ *frame) Value {
+			return mk("bvslt", 0, a[0].(*Term), a[1].(*Term))
+		},
+		"LeInt": func(in *Interp, _ *ssa.Function, a []Value, _ *frame) Value {
+			return mk("bvsle", 0, a[0].(*Term), a[1].(*Term))
+		},
+		// SameValue compares two interface values structurally (term-level).
+		"SameValue": func(in *Interp, _ *ssa.Function, a []Value, _ *frame) Value {
+			return in.sameValue(a[0], a[1])
+		},
+		// Entails reports (concretely) whether the path condition implies cond.
+		"Entails": func(in *Interp, _ *ssa.Function, a []Value, _ *frame) Value {
+			c := a[0].(*Term)
+			if c.isConst {
 				return c
 			}
-		}
-		panic(pathAbort{"assume", "ConcretizeByte: no candidate"})
-	},
-	"Yield": func(in *Interp, _ *ssa.Function, a []Value, _ *frame) Value {
-		in.schedPoint("yield")
-		return nil
-	},
-	"WaitAll": func(in *Interp, _ *ssa.Function, a []Value, _ *frame) Value {
-		in.waitAll()
-		return nil
-	},
-	"Fail": func(in *Interp, _ *ssa.Function, a []Value, _ *frame) Value {
-		in.violate(mustStr(a[0], "fail label"), "")
-		panic(pathAbort{"violation", "Fail"})
-	},
+			switch in.e.feasible(mkNot(c)) {
+			case "unsat":
+				return tTrue
+			case "unknown":
+				panic(pathAbort{"unknown", "solver unknown in Entails"})
+			}
+			return tFalse
+		},
+		// Mentions reports (concretely) whether any byte of the string depends on a
+		// nondet symbol whose name starts with prefix (syntactic taint on terms).
+		"Mentions": func(in *Interp, _ *ssa.Function, a []Value, _ *frame) Value {
+			s := a[0].(strV)
+			prefix := mustStr(a[1], "Mentions prefix")
+			seen := map[*Term]bool{}
+			for _, b := range s {
+				if b.mentions(prefix, seen) {
+					return tTrue
+				}
+			}
+			return tFalse
+		},
+		"IsSymbolic": func(in *Interp, _ *ssa.Function, a []Value, _ *frame) Value { return tTrue },
+		"Concretize": func(in *Interp, _ *ssa.Function, a []Value, _ *frame) Value {
+			t := a[0].(*Term)
+			lo, hi := in.cint(a[1]), in.cint(a[2])
+			v, ok := in.concretize(t, lo, hi+1)
+			if !ok {
+				panic(pathAbort{"assume", "Concretize out of range"})
+			}
+			return bv(64, uint64(v))
+		},
+		"ConcretizeByte": func(in *Interp, _ *ssa.Function, a []Value, _ *frame) Value {
+			t := a[0].(*Term)
+			cands := a[1].(strV)
+			for _, c := range cands {
+				if in.e.branch(mkEq(t, c)) {
+					return c
+				}
+			}
+			panic(pathAbort{"assume", "ConcretizeByte: no candidate"})
+		},
+		"Yield": func(in *Interp, _ *ssa.Function, a []Value, _ *frame) Value {
+			in.schedPoint("yield")
+			return nil
+		},
+		"WaitAll": func(in *Interp, _ *ssa.Function, a []Value, _ *frame) Value {
+			in.waitAll()
+			return nil
+		},
+		"ConvertAssign": func(in *Interp, _ *ssa.Function, a []Value, c *frame) Value {
+			p := in.prog.ImportedPackage("database/sql")
+			if p == nil || p.Func("convertAssign") == nil {
+				unsupported("database/sql.convertAssign not loaded")
+			}
+			return in.call(p.Func("convertAssign"), nil, []Value{a[0], a[1]}, c)
+		},
+		"Fail": func(in *Interp, _ *ssa.Function, a []Value, _ *frame) Value {
+			in.violate(mustStr(a[0], "fail label"), "")
+			panic(pathAbort{"violation", "Fail"})
+		},
+	}
 }
 
 func (in *Interp) assertT(c *Term, label string) {
@@ -361,7 +372,7 @@ var summaries map[string]summaryFn
 func init() {
 	summaries = map[string]summaryFn{
 		"gorm.io/gorm/utils.FileWithLineNum": func(in *Interp, _ *ssa.Function, a []Value, _ *frame) Value { return strV{} },
-		"gorm.io/gorm/utils.sourceDir": func(in *Interp, _ *ssa.Function, a []Value, _ *frame) Value { return mkStr("/gorm/") },
+		"gorm.io/gorm/utils.sourceDir":       func(in *Interp, _ *ssa.Function, a []Value, _ *frame) Value { return mkStr("/gorm/") },
 		"(golang.org/x/text/cases.Caser).String": func(in *Interp, _ *ssa.Function, a []Value, _ *frame) Value {
 			str := mustStr(a[1], "cases.Title")
 			if str == "" {
@@ -655,8 +666,14 @@ func init() {
 			return tupleV{bl(b), iface{}}
 		},
 		// ---- sort
-		"sort.Slice":       func(in *Interp, _ *ssa.Function, a []Value, c *frame) Value { in.sortBy(a[0].(iface).v.(sliceV), a[1], c); return nil },
-		"sort.SliceStable": func(in *Interp, _ *ssa.Function, a []Value, c *frame) Value { in.sortBy(a[0].(iface).v.(sliceV), a[1], c); return nil },
+		"sort.Slice": func(in *Interp, _ *ssa.Function, a []Value, c *frame) Value {
+			in.sortBy(a[0].(iface).v.(sliceV), a[1], c)
+			return nil
+		},
+		"sort.SliceStable": func(in *Interp, _ *ssa.Function, a []Value, c *frame) Value {
+			in.sortBy(a[0].(iface).v.(sliceV), a[1], c)
+			return nil
+		},
 		"sort.Strings": func(in *Interp, _ *ssa.Function, a []Value, c *frame) Value {
 			sl := a[0].(sliceV)
 			in.sortWith(sl, func(i, j int) *Term { return strLess((*sl.at(i)).(strV), (*sl.at(j)).(strV)) })
@@ -680,7 +697,20 @@ func init() {
 				}
 			}
 			format := mustStr(a[0], "Errorf format")
-			msg := in.sprintf(format, va.elems(), c)
+			// error *texts* that embed symbolic values are not modelled (only the
+			// identity / wrapping of errors is): fall back to the raw format
+			msg := func() (m strV) {
+				defer func() {
+					if r := recover(); r != nil {
+						if pa, ok := r.(pathAbort); ok && pa.kind == "unsupported" {
+							m = mkStr(format)
+							return
+						}
+						panic(r)
+					}
+				}()
+				return in.sprintf(format, va.elems(), c)
+			}()
 			if inner != nil && strings.Contains(format, "%w") {
 				return in.errorIface("fmt", "wrapError", msg, inner)
 			}
@@ -696,22 +726,40 @@ func init() {
 			}
 			return r
 		},
-		"fmt.Println":  retNilTuple,
-		"fmt.Printf":   retNilTuple,
-		"fmt.Print":    retNilTuple,
-		"fmt.Fprintf":  retNilTuple,
-		"fmt.Fprintln": retNilTuple,
-		"log.New":      func(in *Interp, fn *ssa.Function, a []Value, _ *frame) Value { return newCell(handle{"logger"}) },
+		"fmt.Println":           retNilTuple,
+		"fmt.Printf":            retNilTuple,
+		"fmt.Print":             retNilTuple,
+		"fmt.Fprintf":           retNilTuple,
+		"fmt.Fprintln":          retNilTuple,
+		"log.New":               func(in *Interp, fn *ssa.Function, a []Value, _ *frame) Value { return newCell(handle{"logger"}) },
 		"(*log.Logger).Printf":  retNil,
 		"(*log.Logger).Println": retNil,
 		"(*log.Logger).Print":   retNil,
 		// ---- sync
-		"(*sync.Mutex).Lock":      func(in *Interp, _ *ssa.Function, a []Value, _ *frame) Value { in.mutexOp(a[0].(*Value), "Lock"); return nil },
-		"(*sync.Mutex).Unlock":    func(in *Interp, _ *ssa.Function, a []Value, _ *frame) Value { in.mutexOp(a[0].(*Value), "Unlock"); return nil },
-		"(*sync.RWMutex).Lock":    func(in *Interp, _ *ssa.Function, a []Value, _ *frame) Value { in.mutexOp(a[0].(*Value), "Lock"); return nil },
-		"(*sync.RWMutex).Unlock":  func(in *Interp, _ *ssa.Function, a []Value, _ *frame) Value { in.mutexOp(a[0].(*Value), "Unlock"); return nil },
-		"(*sync.RWMutex).RLock":   func(in *Interp, _ *ssa.Function, a []Value, _ *frame) Value { in.mutexOp(a[0].(*Value), "RLock"); return nil },
-		"(*sync.RWMutex).RUnlock": func(in *Interp, _ *ssa.Function, a []Value, _ *frame) Value { in.mutexOp(a[0].(*Value), "RUnlock"); return nil },
+		"(*sync.Mutex).Lock": func(in *Interp, _ *ssa.Function, a []Value, _ *frame) Value {
+			in.mutexOp(a[0].(*Value), "Lock")
+			return nil
+		},
+		"(*sync.Mutex).Unlock": func(in *Interp, _ *ssa.Function, a []Value, _ *frame) Value {
+			in.mutexOp(a[0].(*Value), "Unlock")
+			return nil
+		},
+		"(*sync.RWMutex).Lock": func(in *Interp, _ *ssa.Function, a []Value, _ *frame) Value {
+			in.mutexOp(a[0].(*Value), "Lock")
+			return nil
+		},
+		"(*sync.RWMutex).Unlock": func(in *Interp, _ *ssa.Function, a []Value, _ *frame) Value {
+			in.mutexOp(a[0].(*Value), "Unlock")
+			return nil
+		},
+		"(*sync.RWMutex).RLock": func(in *Interp, _ *ssa.Function, a []Value, _ *frame) Value {
+			in.mutexOp(a[0].(*Value), "RLock")
+			return nil
+		},
+		"(*sync.RWMutex).RUnlock": func(in *Interp, _ *ssa.Function, a []Value, _ *frame) Value {
+			in.mutexOp(a[0].(*Value), "RUnlock")
+			return nil
+		},
 		"(*sync.Once).Do": func(in *Interp, _ *ssa.Function, a []Value, c *frame) Value {
 			p := a[0].(*Value)
 			if !in.onceDone[p] {
